@@ -65,6 +65,9 @@ type rCase struct {
 	// Stack: with Log — 0 = default stack capture; 1 = WithStackTrace(false); n >= 2: WithStackSize(n-2)
 	// (0, 8, 16 bytes: smaller than the first line of any trace)
 	Stack int `json:"stack,omitempty"`
+	// PreV: 0 = nothing; v+1 = before the request of the case the same router has served (and recovered) a
+	// request whose handler panicked with value v
+	PreV int `json:"prev,omitempty"`
 }
 
 // recoveryHandler is a custom response handler for recovery.WithHandler: the same document as the
@@ -76,6 +79,7 @@ func recoveryHandler(c *router.Context, _ any) {
 }
 
 const okHid = 99
+const preHid = 98
 
 func buildR(c rCase) (*cx.World, error) {
 	n := len(c.Chain)
@@ -100,6 +104,7 @@ func buildR(c rCase) (*cx.World, error) {
 		}
 		script = append(script, cx.Op{K: "AR", OK: "a", Seg: 1, Hs: rest[:nb], H: rest[nb], Hs2: rest[nb+1:]})
 		script = append(script, cx.Op{K: "AR", OK: "a", Seg: 2, H: okHid})
+		script = append(script, cx.Op{K: "AR", OK: "a", Seg: 3, H: preHid})
 	} else {
 		ropts := []recovery.Option{recovery.WithoutLogging()}
 		if c.Log {
@@ -123,6 +128,7 @@ func buildR(c rCase) (*cx.World, error) {
 		}
 		script = append(script, cx.Op{K: "R", OK: "r", A: 0, Seg: 1, Hs: ids[c.Global:]})
 		script = append(script, cx.Op{K: "R", OK: "r", A: 0, Seg: 2, Hs: []int{okHid}})
+		script = append(script, cx.Op{K: "R", OK: "r", A: 0, Seg: 3, Hs: []int{preHid}})
 	}
 	return cx.Build(script, bo)
 }
@@ -151,6 +157,13 @@ func emitR(id string, c rCase, st *hx.Stats) string {
 		srv.Start()
 		defer srv.Close()
 		serve = func(t cx.Target, st *cx.ReqState) cx.Result { return w.ServeWire(srv, t, st) }
+	}
+	if c.PreV > 0 {
+		// an earlier request on the same router (same middleware instances, same pools) that panicked
+		serve(cx.Target{Path: []int{3}, Ver: -1}, &cx.ReqState{Beh: map[int][]cx.Act{preHid: {p(c.PreV - 1)}}})
+		if st != nil {
+			st.Count("R_after_an_earlier_recovered_panic")
+		}
 	}
 	res := serve(main, &cx.ReqState{Beh: cx.BehMap(c.Chain)})
 	cx.EncResult(l, res)
@@ -322,6 +335,9 @@ func genR(r *hx.Rand, st *hx.Stats) rCase {
 		c.Ctor = r.Range(1, c.Global)
 	}
 	c.Wire = r.Chance(1, 8)
+	if r.Chance(1, 3) {
+		c.PreV = 1 + hx.Pick(r, []int{0, 1, 2, 3, 4, 7})
+	}
 	plain := [][]cx.Act{a("N"), a("N"), a("N"), a("W", "N"), a("N", "W"), a("N", "N"), a(), {{K: "K", Body: a("N")}}}
 	if !c.Wrap && !c.Wire { // cancelling the request context is not a deterministic act over a real connection
 		plain = append(plain, a("C", "N"), a("A", "N"), []cx.Act{{K: "F"}}, []cx.Act{{K: "F", V: 1}, {K: "N"}})
@@ -349,9 +365,10 @@ func genR(r *hx.Rand, st *hx.Stats) rCase {
 type tCase struct {
 	Kind   string   `json:"kind"` // "T"
 	WaitH  bool     `json:"waitH"`
-	Custom bool     `json:"custom"` // timeout.WithHandler (signals after writing); false = the default handler
-	Pre    int      `json:"pre"`    // pass-through middleware between recovery and timeout
-	Budget int      `json:"budget"` // timeout.WithDuration in ms (0 = one hour: only the harness-controlled context ends the budget)
+	WaitL  bool     `json:"waitL,omitempty"` // timeout.WithLogger: the logger waits inside Warn("request timeout") for the handler's signal
+	Custom bool     `json:"custom"`          // timeout.WithHandler (signals after writing); false = the default handler
+	Pre    int      `json:"pre"`             // pass-through middleware between recovery and timeout
+	Budget int      `json:"budget"`          // timeout.WithDuration in ms (0 = one hour: only the harness-controlled context ends the budget)
 	Prog   []string `json:"prog"`
 	// the timed chain behind the middleware: Wrap (a nesting middleware `pre; Next(); post` in front of
 	// the main handler, acts W only), the main handler performing Prog, Tail flat handlers behind it
@@ -368,6 +385,9 @@ type tCase struct {
 	// Hdr: the timed chain never writes, but its first handler sets headers that describe a body
 	// (Content-Length, Content-Encoding) before anything else happens
 	Hdr bool `json:"hdr,omitempty"`
+	// CL: the main handler is the only writer of the chain and declares the total length of its writes
+	// (Content-Length) before the first one
+	CL bool `json:"cl,omitempty"`
 }
 
 type tWrap struct {
@@ -443,6 +463,10 @@ type tState struct {
 	hold       time.Duration
 	fmtf, gate bool
 	hdr        bool
+	cl         int // > 0: Content-Length the main handler declares before its first write
+	clOnce     sync.Once
+	tLogging   chan struct{} // the timeout middleware is logging the timeout
+	logOnce    sync.Once
 	tIn        atomic.Bool   // the timeout handler has been entered
 	tInWrite   chan struct{} // gate: the timeout response is inside the writer's Write
 	gateOnce   sync.Once
@@ -475,6 +499,25 @@ func (w *gateWriter) Write(p []byte) (int, error) {
 		})
 	}
 	return w.ResponseRecorder.Write(p)
+}
+
+// timeoutLog is the slog handler behind timeout.WithLogger (WaitL): the first record — the timeout warning —
+// is held inside the logger until the handler goroutine lets it go on.
+type timeoutLog struct{ s *tState }
+
+func (h timeoutLog) Enabled(context.Context, slog.Level) bool { return true }
+func (h timeoutLog) WithAttrs([]slog.Attr) slog.Handler       { return h }
+func (h timeoutLog) WithGroup(string) slog.Handler            { return h }
+func (h timeoutLog) Handle(context.Context, slog.Record) error {
+	h.s.logOnce.Do(func() {
+		close(h.s.tLogging)
+		select {
+		case <-h.s.hGo:
+		case <-time.After(3 * time.Second):
+			h.s.retTimeout.Store(true)
+		}
+	})
+	return nil
 }
 
 // recoveryLog is the slog handler behind recovery.WithLogger in the T cases: recovery logs every panic it
@@ -552,6 +595,9 @@ func tRun(c *router.Context, s *tState, acts []string) {
 	for _, act := range acts {
 		switch act {
 		case "W":
+			if s.cl > 0 {
+				s.clOnce.Do(func() { c.Response.Header().Set("Content-Length", strconv.Itoa(s.cl)) })
+			}
 			if s.fmtf {
 				_ = c.Stringf(cx.StatusOf(tHid), "{\"h\":%d}", tHid)
 			} else {
@@ -563,6 +609,8 @@ func tRun(c *router.Context, s *tState, acts []string) {
 			s.parent.fire(context.Canceled)
 		case "aC":
 			<-s.reqCtx.Done()
+		case "aL":
+			<-s.tLogging
 		case "aE":
 			if s.gate { // the timeout response is formatted and on its way to the slow client
 				<-s.tInWrite
@@ -644,9 +692,18 @@ type tObs struct {
 func runT(c tCase) tObs {
 	s := &tState{tEntered: make(chan struct{}), tWritten: make(chan struct{}), hGo: make(chan struct{}), returned: make(chan struct{}),
 		hExit: make(chan struct{}), prog: c.Prog, waitH: c.WaitH, fmtf: c.Fmtf, gate: c.Gate && c.WaitH && c.Custom, conc: c.Conc, hdr: c.Hdr && !c.writes(),
-		tInWrite: make(chan struct{}), bInside: make(chan struct{}), aDone: make(chan struct{}), bDone: make(chan struct{})}
+		tLogging: make(chan struct{}), tInWrite: make(chan struct{}), bInside: make(chan struct{}), aDone: make(chan struct{}), bDone: make(chan struct{})}
 	r := router.MustNew()
 	s.router = r
+	if c.CL && c.soleWriter() {
+		n := 0
+		for _, a := range c.Prog {
+			if a == "W" {
+				n += len(`{"h":7}`) + 1
+			}
+		}
+		s.cl = n
+	}
 	r.Use(recovery.New(recovery.WithLogger(slog.New(recoveryLog{s}))))
 	for i := 0; i < c.Pre; i++ {
 		r.Use(func(c *router.Context) { c.Next() })
@@ -656,6 +713,9 @@ func runT(c tCase) tObs {
 		budget = time.Duration(c.Budget) * time.Millisecond
 	}
 	opts := []timeout.Option{timeout.WithDuration(budget), timeout.WithoutLogging()}
+	if c.WaitL {
+		opts = []timeout.Option{timeout.WithDuration(budget), timeout.WithLogger(slog.New(timeoutLog{s}))}
+	}
 	if c.Custom {
 		opts = append(opts, timeout.WithHandler(timeoutHandler))
 	}
@@ -780,6 +840,21 @@ func (c tCase) writes() bool {
 	return w
 }
 
+// soleWriter: the main handler writes, nobody else in the timed chain does, nothing panics, JSON rendering.
+func (c tCase) soleWriter() bool {
+	if !hasAct(c.Prog, "W") || c.Fmtf {
+		return false
+	}
+	for _, a := range c.Prog {
+		if strings.HasPrefix(a, "P") {
+			return false
+		}
+	}
+	main := c
+	main.Prog = nil
+	return !main.writes()
+}
+
 func hasAct(prog []string, x string) bool {
 	for _, a := range prog {
 		if a == x {
@@ -793,7 +868,7 @@ func emitT(id string, c tCase, st *hx.Stats) string {
 	if skipped() {
 		return ""
 	}
-	l := hx.NewLine(id).Tok("T").Bool(c.WaitH).Bool(c.Custom).Nat(c.Budget)
+	l := hx.NewLine(id).Tok("T").Bool(c.WaitH).Bool(c.WaitL).Bool(c.Custom).Nat(c.Budget)
 	fl := c.flat()
 	l.Nat(len(fl))
 	for _, x := range fl {
@@ -849,6 +924,7 @@ func genT(r *hx.Rand, st *hx.Stats) (c tCase) {
 	defer func() {
 		c.Fmtf = r.Chance(1, 3)
 		c.Hdr = !c.writes() && r.Chance(1, 2)
+		c.CL = c.soleWriter() && r.Chance(1, 2)
 		c.Gate = c.WaitH && c.Custom && hasAct(c.Prog, "sH") && r.Chance(1, 2)
 		for _, a := range c.Prog {
 			if strings.HasPrefix(a, "P") && r.Chance(1, 3) {
@@ -867,6 +943,9 @@ func genT(r *hx.Rand, st *hx.Stats) (c tCase) {
 			}
 			if c.Hdr {
 				st.Count("T_chain_sets_body_headers_without_writing")
+			}
+			if c.CL {
+				st.Count("T_handler_declares_content_length")
 			}
 		}
 	}()
@@ -903,7 +982,7 @@ func genT(r *hx.Rand, st *hx.Stats) (c tCase) {
 		}
 		if r.Chance(1, 3) {
 			c.Wrap = &tWrap{Post: w(1)}
-			if !hasAct(c.Prog, "aE") { // a write in front of the main handler starts the response: no timeout handler to wait for
+			if !hasAct(c.Prog, "aE") && !hasAct(c.Prog, "aL") { // a write in front of the main handler starts the response: no timeout handler to wait for
 				c.Wrap.Pre = w(1)
 			}
 			if st != nil {
@@ -934,6 +1013,22 @@ func genT(r *hx.Rand, st *hx.Stats) (c tCase) {
 		}
 		if st != nil {
 			st.Count("T_shape_" + name + "straggler_overruns_6_budgets")
+		}
+		return c
+	}
+	if len(c.Prog) == 0 && r.Chance(1, 12) {
+		// the handler starts the response while the middleware is logging the timeout (the logger is slow):
+		// the claim that follows fails, the response stays the handler's
+		c.Custom, c.WaitL = r.Chance(1, 2), true
+		c.Prog = append(append([]string{"D", "aC", "aL", "W"}, w(1)...), "sH")
+		switch r.Intn(3) {
+		case 0:
+			c.Prog = append(c.Prog, pv())
+		case 1:
+			c.Prog = append(c.Prog, "hold", "W")
+		}
+		if st != nil {
+			st.Count("T_shape_handler_starts_the_response_while_the_timeout_is_logged")
 		}
 		return c
 	}
@@ -1230,6 +1325,9 @@ func fixedR() []rCase {
 		{Kind: "R", Check: true, Log: true, Stack: 2, Chain: []cx.Beh{{H: 1, Acts: []cx.Act{p(1)}}}},
 		// the panic comes out of app.Readiness().Check() (a gate whose Ready method panics)
 		{Kind: "R", Check: true, App: true, Chain: []cx.Beh{{H: 1, Acts: []cx.Act{p(cx.GatePanic)}}}},
+		// two panics with values of different types, one request after the other, recovery logging on
+		{Kind: "R", Check: true, Log: true, PreV: 2, Chain: []cx.Beh{{H: 1, Acts: []cx.Act{p(0)}}}},
+		{Kind: "R", Check: true, App: true, PreV: 1, Chain: []cx.Beh{{H: 1, Acts: []cx.Act{p(3)}}}},
 		// through the timeout middleware's goroutine
 		{Kind: "R", Check: true, Wrap: true, Global: 1, Chain: []cx.Beh{{H: 1, Acts: []cx.Act{{K: "N"}, p(0)}}, {H: 2, Acts: []cx.Act{p(4)}}}},
 	}
@@ -1258,6 +1356,10 @@ func fixedT() []tCase {
 		// the chain sets Content-Length / Content-Encoding, writes nothing, runs into the deadline
 		{Kind: "T", Custom: true, Hdr: true, Prog: []string{"D", "aC", "aE", "aT"}},
 		{Kind: "T", Hdr: true, Prog: []string{"P0"}},
+		// the first write of the handler lands while the timeout warning is being logged
+		{Kind: "T", Custom: true, WaitL: true, Prog: []string{"D", "aC", "aL", "W", "sH"}},
+		// the handler owns the response (started before the deadline, Content-Length declared) and completes it afterwards
+		{Kind: "T", Custom: true, CL: true, Prog: []string{"W", "D", "aC", "hold", "W"}},
 	}
 }
 
